@@ -173,3 +173,35 @@ def eigen(h, d=2, which='eigenvector'):
             h.eq("M.inv() is the inverse", (Minv @ M).proj_data, np.diag([1] * d), validate=False)
             M2 = T.diagonalize()
             h.eq("diagonalize() without inverse returns the same frame", M2.proj_data, M.proj_data, validate=False)
+
+
+def eigen_complex(h):
+    """a real 3x3 transformation with spectrum a+ib, a-ib, a: eigenvector(a) must be the eigenvector of the REAL eigenvalue"""
+    from .c15 import _EigStub, _with_eig
+    from symnp.core import F, FC
+    d = 3
+    C = h.arr('C', (d, d))
+    h.assume(_det(C) != 0, 'independent generalized eigenvectors')
+    a, b = h.var('a'), h.var('b')
+    h.assume(a != 0, 'invertible')
+    h.assume(b * b > 0.01, 'genuinely complex pair')
+    h.assume(a * a < 10000, 'bounded')
+    D = np.zeros((d, d), dtype=object if h.is_sym() else float)
+    D[0, 0], D[0, 1], D[1, 0], D[1, 1], D[2, 2] = a, -b, b, a, a
+    Mc = C @ D @ np.linalg.inv(C)
+    T = projective.Transformation(Mc.copy(), column_vectors=True)
+    if h.is_sym():
+        mk = lambda re, im: FC(re, im)
+        e0 = np.array([mk(C[i, 0], -C[i, 1]) for i in range(d)], dtype=object)
+        e1 = np.array([mk(C[i, 0], C[i, 1]) for i in range(d)], dtype=object)
+        e2 = np.array([mk(C[i, 2], 0 * C[i, 2]) for i in range(d)], dtype=object)
+        evals = [mk(a, b), mk(a, -b), mk(a, 0 * a)]
+    else:
+        e0, e1, e2 = C[:, 0] - 1j * C[:, 1], C[:, 0] + 1j * C[:, 1], C[:, 2].astype(complex)
+        evals = [complex(a, b), complex(a, -b), complex(a, 0)]
+    with _with_eig(h, _EigStub(h, evals, [e0, e1, e2], cplx=True, real_cols=(2,))):
+        v = T.eigenvector(eigenvalue=a)
+    vd = v.proj_data
+    h.proj_eq("eigenvector(a) is the eigenvector of the real eigenvalue a", np.real(vd) if not h.is_sym() else npmodels.model_real(vd), C[:, 2], nonzero=False)
+    img = (T @ v).proj_data
+    h.eq("T @ v = a v", img, a * vd, validate=False)
